@@ -99,6 +99,16 @@ CHECKS = {
         technique='SMT regular-language equivalence (z3 regex theory) of the live validation patterns against a '
                   'reference grammar, plus dynamic symbolic execution of the lookup / aggregation / spelling code',
         design='3 C13'),
+    'C14': dict(
+        text='Solver-driven exhaustive enumeration of all registry histories up to length L over an 11-operation '
+             'menu (add / addProfiles / remove of three custom profiles incl. one that redefines a built-in token '
+             'macro and another profile\'s macro, remove unknown, remove built-in, defaultProfiles); after every '
+             'step the registry is compared with a fresh registry brought to the same content: names, known '
+             'properties, every compiled pattern (string equality or, failing that, z3 regular-language '
+             'equivalence over values of any length) and a verdict battery; rejected operations must change nothing.',
+        note='Finite-choice throughout (leverage about 1): the solver contributes the unbounded pattern-equivalence '
+             'lemmas, the histories are enumerated. Trusted: z3, rx/translate.py, the three-line content model.',
+        design='3 C14'),
 }
 
 NA_REASON = 'check not built yet (build in progress; DESIGN.md section 3 describes the planned harness)'
